@@ -117,7 +117,7 @@ func (e *Exec) spawn(parent *Thread, clo *Closure, args []Value) {
 	}
 	name := "go"
 	if clo.Fn != nil {
-		name = clo.Fn.String()
+		name = fnName(clo.Fn)
 	}
 	t := e.newThread(name, parent)
 	if clo.Fn == nil || e.isStub(clo.Fn) {
@@ -830,7 +830,7 @@ func (e *Exec) fireTimer(tm *Timer) {
 		tm.Active = false
 	case tm.Fn != nil:
 		tm.Active = false
-		t := e.newThread("timer:"+tm.Fn.Fn.String(), nil)
+		t := e.newThread("timer:"+fnName(tm.Fn.Fn), nil)
 		vcJoin(&t.vc, tm.vc)
 		e.pushCall(t, tm.Fn, nil, nil, retGo)
 	case tm.Ch != nil:
